@@ -86,7 +86,22 @@ def _interpret_method(name, fn, mod):
             rematch = node
             break
     if rematch is None:
-        return Step(name, None, None, "other", {})
+        # a pure string test on self.line:  self.line == "..."  /  self.line in ("...", "...")
+        lits = []
+        for node in ast.walk(fn):
+            if isinstance(node, ast.Compare) and ast.unparse(node.left) == "self.line" and len(node.ops) == 1:
+                comp_ = node.comparators[0]
+                if isinstance(node.ops[0], ast.Eq) and isinstance(comp_, ast.Constant) and isinstance(comp_.value, str):
+                    lits.append(comp_.value)
+                elif isinstance(node.ops[0], ast.In) and isinstance(comp_, (ast.Tuple, ast.List)) and all(isinstance(e, ast.Constant) and isinstance(e.value, str) for e in comp_.elts):
+                    lits += [e.value for e in comp_.elts]
+                else:
+                    raise Unsupported(f"{name}: string test {ast.unparse(node)} is not modelled")
+        if not lits:
+            raise Unsupported(f"{name}: neither re.match nor a string comparison on self.line")
+        st = Step(name, None, None, "other", {})
+        st.literals = lits
+        return st
     if rematch.func.attr != "match":
         raise Unsupported(f"{name}: re.{rematch.func.attr} (only re.match is modelled)")
     a0 = rematch.args[0]
@@ -102,8 +117,10 @@ def _interpret_method(name, fn, mod):
     subject = ast.unparse(rematch.args[1]) if len(rematch.args) > 1 else "?"
     if subject != "self.line":
         # parse_section lower-cases the line first: it never produces an Instruction, model it as 'other'
-        if name == "parse_section":
-            return Step(name, const, regex_text, "other", {})
+        if subject == "self.line.lower()":
+            st = Step(name, const, regex_text, "other", {})
+            st.lowered = True  # the regex is applied to the lower-cased line
+            return st
         raise Unsupported(f"{name}: matches {subject}, not self.line")
     # variables bound to match.group(k)
     var_group = {}
@@ -251,6 +268,25 @@ class LineLang:
         K = rx.EPS if end else self.w.ANY
         return self.tr.lang(astn, K, (0,), self.w.colours, {g: (c,) for g, c in groups.items()})
 
+    def step_lang(self, step):
+        """language of lines the step accepts (all colours), for every kind of step the cascade can contain"""
+        allc = self.w.colours
+        lits = getattr(step, "literals", None)
+        if lits is not None:
+            outs = []
+            for t in lits:
+                t = t.rstrip("\n")  # lines never contain a newline (the listing is split on it)
+                if all(ord(ch) in self.w.alphabet for ch in t):
+                    outs.append(self.w.lit(t, allc))
+            return rx.union(outs) if outs else rx.EMPTY
+        if getattr(step, "lowered", False):
+            t, end = prep(step.regex_text)
+            astn, _ = rx.parse(t)
+            astn = _case_fold(astn)
+            K = rx.EPS if end else self.w.ANY
+            return self.tr.lang(astn, K, allc, allc, None)
+        return self.blind(step.regex_text)
+
     def seg(self, segs, blind=False):
         """segs: list of (colour, regex text) -> concatenated language"""
         parts = []
@@ -285,6 +321,29 @@ def _apply_split0(n, transforms):
         return ("cap", n[1], _apply_split0(n[2], transforms))
     if k == "rep":
         return ("rep", _apply_split0(n[1], transforms), n[2], n[3])
+    return n
+
+
+def _case_fold(n):
+    """regex applied to line.lower(): a lower-case literal letter stands for both cases of the original line"""
+    k = n[0]
+    if k == "lit":
+        c = n[1]
+        if c.isalpha() and c.islower():
+            return ("set", (ord(c), ord(c.upper())))
+        if c.isalpha() and c.isupper():
+            return ("set", ())  # an upper-case literal can never match a lower-cased line
+        return n
+    if k == "cls":
+        return n
+    if k in ("cat", "alt"):
+        return (k, [_case_fold(x) for x in n[1]])
+    if k in ("grp", "nla", "pla", "atomic"):
+        return (k, _case_fold(n[1]))
+    if k == "cap":
+        return ("cap", n[1], _case_fold(n[2]))
+    if k in ("rep", "prep"):
+        return (k, _case_fold(n[1]), n[2], n[3])
     return n
 
 
